@@ -98,6 +98,8 @@ class Underlying(abc.ABC):
         """update the underlying given the process representation type"""
         if process_representation == ProcessRepresentation.LOG:
             self.value = self._value_log
+        else:
+            self.__dict__.pop("value", None)  # back to the class implementation
 
     def imply_from_payoff_underlying(self, payoff_underlying_type) -> Callable:
         """
